@@ -33,15 +33,17 @@ fn ref_planar_delta(d: u8) -> u8 {
     }
 }
 
-/// Decode the RDP6_RLE_SEGMENTs of ONE scanline: returns the `width` coded values
-/// (absolute values for the first scanline, coded deltas for the others).
-fn ref_planar_scanline(data: &[u8], pos: &mut usize, width: usize) -> Option<Vec<u8>> {
-    let mut line = vec![0u8; width];
+/// Decode the RDP6_RLE_SEGMENTs of ONE scanline into `line[base .. base + width]`: the
+/// coded values (absolute values for the first scanline, coded deltas for the others).
+fn ref_planar_scanline(data: &[u8], pos: &mut usize, line: &mut [u8], base: usize, width: usize) -> Option<()> {
     let mut filled = 0usize;
     // "a run at the start of a scanline repeats the value zero"
     let mut last = 0u8;
     while filled < width {
-        let ctrl = *data.get(*pos)?;
+        if *pos >= data.len() {
+            return None; // truncated
+        }
+        let ctrl = data[*pos];
         *pos += 1;
         let mut run = (ctrl & 0x0f) as usize; // nRunLength
         let mut raw = ((ctrl >> 4) & 0x0f) as usize; // cRawBytes
@@ -56,59 +58,85 @@ fn ref_planar_scanline(data: &[u8], pos: &mut usize, width: usize) -> Option<Vec
         if raw + run > width - filled {
             return None;
         }
-        for _ in 0..raw {
-            last = *data.get(*pos)?;
+        while raw > 0 {
+            if *pos >= data.len() {
+                return None; // truncated
+            }
+            last = data[*pos];
             *pos += 1;
-            line[filled] = last;
+            line[base + filled] = last;
             filled += 1;
+            raw -= 1;
         }
-        for _ in 0..run {
-            line[filled] = last;
+        while run > 0 {
+            line[base + filled] = last;
             filled += 1;
+            run -= 1;
         }
     }
-    Some(line)
+    Some(())
 }
 
-/// Decode one colour plane: `height` scanlines in wire order (first = bottom row),
-/// returned in wire order as absolute values.
-fn ref_planar_plane(data: &[u8], pos: &mut usize, width: usize, height: usize) -> Option<Vec<u8>> {
-    let mut plane = vec![0u8; width * height];
-    for k in 0..height {
-        let coded = ref_planar_scanline(data, pos, width)?;
-        for i in 0..width {
-            plane[k * width + i] = if k == 0 {
-                coded[i]
-            } else {
-                plane[(k - 1) * width + i].wrapping_add(ref_planar_delta(coded[i]))
-            };
-        }
+/// Decode one colour plane into `plane[0 .. width*height]`: `height` scanlines in wire order
+/// (scanline 0 = bottom row of the image), as absolute values.
+fn ref_planar_plane(data: &[u8], pos: &mut usize, plane: &mut [u8], width: usize, height: usize) -> Option<()> {
+    // 1. undo the run-length stage
+    let mut k = 0usize;
+    while k < height {
+        ref_planar_scanline(data, pos, plane, k * width, width)?;
+        k += 1;
     }
-    Some(plane)
+    // 2. undo the delta stage: every scanline after the first holds coded deltas against
+    //    the scanline decoded just before it
+    let mut k = 1usize;
+    while k < height {
+        let mut i = 0usize;
+        while i < width {
+            plane[k * width + i] = plane[(k - 1) * width + i].wrapping_add(ref_planar_delta(plane[k * width + i]));
+            i += 1;
+        }
+        k += 1;
+    }
+    Some(())
+}
+
+/// The reference decoder proper, on caller-provided buffers:
+/// `planes.len() >= 4*width*height` (scratch), `out.len() >= 4*width*height`.
+fn ref_planar_decode_into(data: &[u8], width: usize, height: usize, planes: &mut [u8], out: &mut [u8]) -> Option<()> {
+    if data.len() < 1 || data[0] != 0x10 {
+        return None;
+    }
+    let size = width * height;
+    let mut pos = 1usize;
+    // wire order of the planes: alpha, red, green, blue
+    let mut c = 0usize;
+    while c < 4 {
+        ref_planar_plane(data, &mut pos, &mut planes[c * size..], width, height)?;
+        c += 1;
+    }
+    let mut row = 0usize;
+    while row < height {
+        let k = height - 1 - row; // wire scanline holding this top-down row
+        let mut i = 0usize;
+        while i < width {
+            let p = (row * width + i) * 4;
+            out[p] = planes[3 * size + k * width + i]; // blue
+            out[p + 1] = planes[2 * size + k * width + i]; // green
+            out[p + 2] = planes[size + k * width + i]; // red
+            out[p + 3] = planes[k * width + i]; // alpha
+            i += 1;
+        }
+        row += 1;
+    }
+    Some(())
 }
 
 /// Reference decoder for the planar codec as used by the crate. Output: width*height*4
 /// bytes, rows top-down, pixel layout B, G, R, A. None = malformed.
 pub fn ref_planar_decode(data: &[u8], width: usize, height: usize) -> Option<Vec<u8>> {
-    if *data.get(0)? != 0x10 {
-        return None;
-    }
-    let mut pos = 1usize;
-    let alpha = ref_planar_plane(data, &mut pos, width, height)?;
-    let red = ref_planar_plane(data, &mut pos, width, height)?;
-    let green = ref_planar_plane(data, &mut pos, width, height)?;
-    let blue = ref_planar_plane(data, &mut pos, width, height)?;
+    let mut planes = vec![0u8; width * height * 4];
     let mut out = vec![0u8; width * height * 4];
-    for row in 0..height {
-        let k = height - 1 - row; // wire scanline holding this top-down row
-        for i in 0..width {
-            let p = (row * width + i) * 4;
-            out[p] = blue[k * width + i];
-            out[p + 1] = green[k * width + i];
-            out[p + 2] = red[k * width + i];
-            out[p + 3] = alpha[k * width + i];
-        }
-    }
+    ref_planar_decode_into(data, width, height, &mut planes[..], &mut out[..])?;
     Some(out)
 }
 
@@ -133,7 +161,10 @@ enum RefOrder {
 }
 
 fn ref_u8(data: &[u8], pos: &mut usize) -> Option<u8> {
-    let b = *data.get(*pos)?;
+    if *pos >= data.len() {
+        return None; // truncated
+    }
+    let b = data[*pos];
     *pos += 1;
     Some(b)
 }
@@ -203,9 +234,12 @@ fn ref_rle16_header(data: &[u8], pos: &mut usize) -> Option<(RefOrder, usize)> {
     }
 }
 
-/// The destination in decode (wire) order.
-struct RefCanvas {
-    px: Vec<u16>,
+/// The destination in decode (wire) order: px[0] is the first pixel decoded.
+struct RefCanvas<'a> {
+    px: &'a mut [u16],
+    /// width * height
+    total: usize,
+    /// pixels written so far
     n: usize,
     width: usize,
     /// literal pseudo-code reading: "first line" is a flag tested once per order
@@ -213,7 +247,7 @@ struct RefCanvas {
     first_line: bool,
 }
 
-impl RefCanvas {
+impl<'a> RefCanvas<'a> {
     /// the pixel on the previous scanline, black when there is none
     fn above(&self) -> u16 {
         if self.literal {
@@ -223,7 +257,7 @@ impl RefCanvas {
         }
     }
     fn put(&mut self, p: u16) -> Option<()> {
-        if self.n >= self.px.len() {
+        if self.n >= self.total {
             return None; // more than width*height pixels
         }
         self.px[self.n] = p;
@@ -232,21 +266,22 @@ impl RefCanvas {
     }
     /// WriteFgBgImage / WriteFirstLineFgBgImage: `bits` pixels, least significant bit first
     fn fgbg(&mut self, mask: u8, fg: u16, bits: usize) -> Option<()> {
-        for b in 0..bits {
+        let mut b = 0usize;
+        while b < bits {
             let a = self.above();
             if (mask >> b) & 1 != 0 {
                 self.put(a ^ fg)?;
             } else {
                 self.put(a)?;
             }
+            b += 1;
         }
         Some(())
     }
 }
 
-pub struct RefRle16 {
-    /// rows top-down, width*height pixels, pixels never written are 0
-    pub pixels: Vec<u16>,
+#[derive(Clone, Copy)]
+pub struct RefRle16Info {
     /// number of pixels written by the stream
     pub decoded: usize,
     /// some order began on the first scanline and wrote past its end
@@ -256,12 +291,15 @@ pub struct RefRle16 {
     pub bg_after_straddling_bg: bool,
 }
 
+/// The reference decoder proper, on caller-provided buffers: `wire` (scratch, decode order)
+/// and `out` (result, rows top-down) hold at least width*height pixels and are zero-filled.
+///
 /// `literal == false`: position-based reading (a pixel is "on the first line" iff it is one
 /// of the first `width` pixels decoded). `literal == true`: the pseudo-code verbatim, the
 /// first-line flag is re-evaluated only between orders.
-pub fn ref_rle16_run(data: &[u8], width: usize, height: usize, literal: bool) -> Option<RefRle16> {
+pub fn ref_rle16_decode_into(data: &[u8], width: usize, height: usize, literal: bool, wire: &mut [u16], out: &mut [u16]) -> Option<RefRle16Info> {
     let total = width * height;
-    let mut c = RefCanvas { px: vec![0u16; total], n: 0, width: width, literal: literal, first_line: true };
+    let mut c = RefCanvas { px: wire, total: total, n: 0, width: width, literal: literal, first_line: true };
     let mut pos = 0usize;
     let mut fg: u16 = 0xFFFF;
     let mut insert_fg = false;
@@ -278,12 +316,12 @@ pub fn ref_rle16_run(data: &[u8], width: usize, height: usize, literal: bool) ->
         }
         let start = c.n;
         let (order, run) = ref_rle16_header(data, &mut pos)?;
+        let mut run = run;
         match order {
             RefOrder::BgRun => {
                 if left_first_line_inside_a_bg_run {
                     bg_after_straddling_bg = true;
                 }
-                let mut run = run;
                 if insert_fg {
                     if run == 0 {
                         return None; // the inserted pel is counted in the run
@@ -292,53 +330,57 @@ pub fn ref_rle16_run(data: &[u8], width: usize, height: usize, literal: bool) ->
                     c.put(a ^ fg)?;
                     run -= 1;
                 }
-                for _ in 0..run {
+                while run > 0 {
                     let a = c.above();
                     c.put(a)?;
+                    run -= 1;
                 }
             }
             RefOrder::FgRun | RefOrder::SetFgFgRun => {
                 if order == RefOrder::SetFgFgRun {
                     fg = ref_u16(data, &mut pos)?;
                 }
-                for _ in 0..run {
+                while run > 0 {
                     let a = c.above();
                     c.put(a ^ fg)?;
+                    run -= 1;
                 }
             }
             RefOrder::DitheredRun => {
                 let a = ref_u16(data, &mut pos)?;
                 let b = ref_u16(data, &mut pos)?;
-                for _ in 0..run {
+                while run > 0 {
                     c.put(a)?;
                     c.put(b)?;
+                    run -= 1;
                 }
             }
             RefOrder::ColorRun => {
                 let a = ref_u16(data, &mut pos)?;
-                for _ in 0..run {
+                while run > 0 {
                     c.put(a)?;
+                    run -= 1;
                 }
             }
             RefOrder::FgBgImage | RefOrder::SetFgFgBgImage => {
                 if order == RefOrder::SetFgFgBgImage {
                     fg = ref_u16(data, &mut pos)?;
                 }
-                let mut left = run;
-                while left > 8 {
+                while run > 8 {
                     let mask = ref_u8(data, &mut pos)?;
                     c.fgbg(mask, fg, 8)?;
-                    left -= 8;
+                    run -= 8;
                 }
-                if left > 0 {
+                if run > 0 {
                     let mask = ref_u8(data, &mut pos)?;
-                    c.fgbg(mask, fg, left)?;
+                    c.fgbg(mask, fg, run)?;
                 }
             }
             RefOrder::ColorImage => {
-                for _ in 0..run {
+                while run > 0 {
                     let p = ref_u16(data, &mut pos)?;
                     c.put(p)?;
+                    run -= 1;
                 }
             }
             RefOrder::SpecialFgBg1 => c.fgbg(0x03, fg, 8)?,
@@ -353,23 +395,26 @@ pub fn ref_rle16_run(data: &[u8], width: usize, height: usize, literal: bool) ->
     }
 
     // the wire image is bottom-up
-    let mut pixels = vec![0u16; total];
-    for k in 0..height {
-        for i in 0..width {
-            pixels[(height - 1 - k) * width + i] = c.px[k * width + i];
+    let mut k = 0usize;
+    while k < height {
+        let mut i = 0usize;
+        while i < width {
+            out[(height - 1 - k) * width + i] = c.px[k * width + i];
+            i += 1;
         }
+        k += 1;
     }
-    Some(RefRle16 { pixels: pixels, decoded: c.n, straddled: straddled, bg_after_straddling_bg: bg_after_straddling_bg })
+    Some(RefRle16Info { decoded: c.n, straddled: straddled, bg_after_straddling_bg: bg_after_straddling_bg })
 }
 
 /// Reference decoder for Interleaved RLE at 16 bpp. Rows top-down; pixels the stream does
 /// not reach stay 0 (the caller's buffer is zero-initialised). None = malformed (truncated,
 /// unknown order, more than width*height pixels).
 pub fn ref_rle16_decode(data: &[u8], width: usize, height: usize) -> Option<Vec<u16>> {
-    match ref_rle16_run(data, width, height, false) {
-        Some(r) => Some(r.pixels),
-        None => None,
-    }
+    let mut wire = vec![0u16; width * height];
+    let mut out = vec![0u16; width * height];
+    ref_rle16_decode_into(data, width, height, false, &mut wire[..], &mut out[..])?;
+    Some(out)
 }
 
 // =====================================================================================
@@ -400,45 +445,59 @@ fn check_rgb565_all_colours() {
 }
 
 #[cfg(kani)]
-const PLANAR_MAX_DATA: usize = 5;
-#[cfg(kani)]
 const PLANAR_MAX_W: usize = 4;
 #[cfg(kani)]
 const PLANAR_MAX_H: usize = 2;
 
-/// compare the two decoders on every stream of at most PLANAR_MAX_DATA bytes, for one size
+/// compare the two decoders on every stream of at most `N` bytes, for one image size
 #[cfg(kani)]
-fn planar_case(w: usize, h: usize) {
-    let bytes: [u8; PLANAR_MAX_DATA] = kani::any();
+fn planar_case<const N: usize>(w: usize, h: usize) {
+    let bytes: [u8; N] = kani::any();
     let n: usize = kani::any();
-    kani::assume(n <= PLANAR_MAX_DATA);
+    kani::assume(n <= N);
     let data = &bytes[..n];
 
-    let mut out = [0u8; PLANAR_MAX_W * PLANAR_MAX_H * 4];
     let len = w * h * 4;
+    let mut out = [0u8; PLANAR_MAX_W * PLANAR_MAX_H * 4];
     let real = super::rle_32_decompress(data, w as u32, h as u32, &mut out[..len]);
-    let reference = ref_planar_decode(data, w, h);
+    let real_ok = real.is_ok();
+    // the error value owns a String / io::Error: its drop glue is expensive in CBMC and irrelevant
+    std::mem::forget(real);
 
-    if let Some(r) = reference {
-        assert!(real.is_ok()); // every stream the reference decodes is accepted
-        assert!(r.len() == len);
-        for row in 0..h {
-            for col in 0..w {
-                let p = (row * w + col) * 4;
-                assert!(out[p] == r[p]);
-                assert!(out[p + 1] == r[p + 1]);
-                assert!(out[p + 2] == r[p + 2]);
-                assert!(out[p + 3] == r[p + 3]);
-            }
+    let mut planes = [0u8; PLANAR_MAX_W * PLANAR_MAX_H * 4];
+    let mut expected = [0u8; PLANAR_MAX_W * PLANAR_MAX_H * 4];
+    let reference = ref_planar_decode_into(data, w, h, &mut planes, &mut expected);
+
+    if reference.is_some() {
+        assert!(real_ok); // every stream the reference decodes is accepted
+        let mut p = 0;
+        while p < len {
+            assert!(out[p] == expected[p]);
+            assert!(out[p + 1] == expected[p + 1]);
+            assert!(out[p + 2] == expected[p + 2]);
+            assert!(out[p + 3] == expected[p + 3]);
+            p += 4;
         }
     }
 }
 
 #[cfg(kani)]
 #[kani::proof]
-#[kani::unwind(6)]
-fn tune_planar_3x1() {
-    planar_case(3, 1);
+#[kani::unwind(4)]
+fn tune_planar_1x1() {
+    planar_case::<9>(1, 1);
+}
+#[cfg(kani)]
+#[kani::proof]
+#[kani::unwind(4)]
+fn tune_planar_2x1() {
+    planar_case::<17>(2, 1);
+}
+#[cfg(kani)]
+#[kani::proof]
+#[kani::unwind(5)]
+fn tune_planar_2x2() {
+    planar_case::<33>(2, 2);
 }
 
 #[cfg(kani)]
@@ -450,36 +509,46 @@ const RLE16_MAX_H: usize = 2;
 
 #[cfg(kani)]
 fn rle16_compare(literal: bool, only_non_straddling: bool, exempt_bg_after_straddling_bg: bool) {
-    let bytes: [u8; RLE16_MAX_DATA] = kani::any();
-    let n: usize = kani::any();
-    kani::assume(n <= RLE16_MAX_DATA);
     let w: usize = kani::any();
     let h: usize = kani::any();
     kani::assume(1 <= w && w <= RLE16_MAX_W);
     kani::assume(1 <= h && h <= RLE16_MAX_H);
+    let n: usize = kani::any();
+    kani::assume(n <= RLE16_MAX_DATA);
+    rle16_case(w, h, n, literal, only_non_straddling, exempt_bg_after_straddling_bg);
+}
+
+#[cfg(kani)]
+fn rle16_case(w: usize, h: usize, n: usize, literal: bool, only_non_straddling: bool, exempt_bg_after_straddling_bg: bool) {
+    let bytes: [u8; RLE16_MAX_DATA] = kani::any();
     let data = &bytes[..n];
 
     // the caller (BitmapEvent::decompress) passes width*height*2 elements, zeroed
     let mut out = [0u16; RLE16_MAX_W * RLE16_MAX_H * 2];
     let total = w * h;
     let real = super::rle_16_decompress(data, w, h, &mut out[..total * 2]);
-    let reference = ref_rle16_run(data, w, h, literal);
+    let real_ok = real.is_ok();
+    // the error value owns a String / io::Error: its drop glue is expensive in CBMC and irrelevant
+    std::mem::forget(real);
 
-    if let Some(r) = reference {
-        if only_non_straddling && r.straddled {
+    let mut wire = [0u16; RLE16_MAX_W * RLE16_MAX_H];
+    let mut expected = [0u16; RLE16_MAX_W * RLE16_MAX_H];
+    let reference = ref_rle16_decode_into(data, w, h, literal, &mut wire, &mut expected);
+
+    if let Some(info) = reference {
+        if only_non_straddling && info.straddled {
             return;
         }
-        if exempt_bg_after_straddling_bg && r.bg_after_straddling_bg {
+        if exempt_bg_after_straddling_bg && info.bg_after_straddling_bg {
             return;
         }
-        assert!(real.is_ok());
-        assert!(r.pixels.len() == total);
-        for i in 0..total {
-            assert!(out[i] == r.pixels[i]);
-        }
-        // nothing is written behind the image
-        for i in total..total * 2 {
-            assert!(out[i] == 0);
+        assert!(real_ok);
+        let mut i = 0;
+        while i < total {
+            assert!(out[i] == expected[i]);
+            // nothing is written behind the image
+            assert!(out[total + i] == 0);
+            i += 1;
         }
     }
 }
@@ -489,7 +558,7 @@ fn rle16_compare(literal: bool, only_non_straddling: bool, exempt_bg_after_strad
 /// the first scanline), see README.
 #[cfg(kani)]
 #[kani::proof]
-#[kani::unwind(9)]
+#[kani::unwind(8)]
 fn check_rle16_vs_ref() {
     rle16_compare(false, false, true);
 }
@@ -498,7 +567,7 @@ fn check_rle16_vs_ref() {
 /// crosses the end of the first scanline.
 #[cfg(kani)]
 #[kani::proof]
-#[kani::unwind(9)]
+#[kani::unwind(8)]
 fn check_rle16_vs_literal_spec_non_straddling() {
     rle16_compare(true, true, false);
 }
@@ -507,7 +576,7 @@ fn check_rle16_vs_literal_spec_non_straddling() {
 /// rule after a straddling background run.
 #[cfg(kani)]
 #[kani::proof]
-#[kani::unwind(9)]
+#[kani::unwind(8)]
 fn witness_rle16_bg_after_straddling_bg() {
     rle16_compare(false, false, false);
 }
@@ -516,31 +585,53 @@ fn witness_rle16_bg_after_straddling_bg() {
 /// literal pseudo-code on orders that cross the end of the first scanline.
 #[cfg(kani)]
 #[kani::proof]
-#[kani::unwind(9)]
+#[kani::unwind(8)]
 fn witness_rle16_literal_spec_straddling() {
     rle16_compare(true, false, false);
 }
 
 #[cfg(kani)]
 #[kani::proof]
-#[kani::unwind(6)]
-fn tune_real_only() {
-    let bytes: [u8; 5] = kani::any();
-    let n: usize = kani::any();
-    kani::assume(n <= 5);
-    let mut out = [0u8; 12];
-    let real = super::rle_32_decompress(&bytes[..n], 3, 1, &mut out);
-    if real.is_ok() { assert!(out[3] == bytes[2] || bytes[1] & 0xf0 == 0); }
-    std::mem::forget(real);
+fn micro_rdperror() {
+    let e = super::RdpError::new(super::RdpErrorKind::InvalidData, "Run out of scanline");
+    std::mem::forget(e);
 }
 
 #[cfg(kani)]
 #[kani::proof]
-#[kani::unwind(6)]
-fn tune_ref_only() {
-    let bytes: [u8; 5] = kani::any();
+#[kani::unwind(4)]
+fn tune_real_1x1() {
+    let bytes: [u8; 9] = kani::any();
+    let mut out = [0u8; 4];
+    let real = super::rle_32_decompress(&bytes, 1, 1, &mut out);
+    let ok = real.is_ok();
+    std::mem::forget(real);
+    if ok { assert!(out[3] == bytes[2] || bytes[1] != 0x10); }
+}
+#[cfg(kani)]
+#[kani::proof]
+#[kani::unwind(4)]
+fn tune_plane_1x1() {
+    let bytes: [u8; 3] = kani::any();
+    let mut out = [0u8; 4];
+    let mut c = std::io::Cursor::new(&bytes[..]);
+    let real = super::process_plane(&mut c, 1, 1, &mut out);
+    let ok = real.is_ok();
+    std::mem::forget(real);
+    if ok { assert!(out[0] == bytes[1] || bytes[0] != 0x10); }
+}
+
+#[cfg(kani)]
+#[kani::proof]
+#[kani::unwind(8)]
+fn tune_rle16_c325() {
+    rle16_case(3, 2, 5, false, false, true);
+}
+#[cfg(kani)]
+#[kani::proof]
+#[kani::unwind(8)]
+fn tune_rle16_concrete_wh() {
     let n: usize = kani::any();
-    kani::assume(n <= 5);
-    let r = ref_planar_decode(&bytes[..n], 3, 1);
-    if let Some(v) = r { assert!(v.len() == 12); }
+    kani::assume(n <= RLE16_MAX_DATA);
+    rle16_case(3, 2, n, false, false, true);
 }
